@@ -519,13 +519,21 @@ class Generator:
         if r.random() < self.invalid_rate:
             invalid = 'attached-element'
 
+        dup = kk_dup = False
+        if op in ('extend', 'setslice', 'setext', 'iadd') and r.random() < 0.04:
+            dup = True      # the same free node named twice in one batch: must be refused (a node cannot be in two places)
+
         def dn(kk, bad_at=None):
+            nonlocal invalid
             out = []
             for i in range(kk):
                 it = mkitem(attached=(bad_at == i))
                 if it is None:
                     return None
                 out.append(it)
+            if dup and kk >= 2 and bad_at is None:
+                out[r.randrange(1, kk)] = out[0]
+                invalid = 'duplicate-element'
             return out
 
         def slot():
